@@ -1,6 +1,6 @@
 (* Correspondence check for C19: evaluated by coqc on harness-written cases. *)
 From Coq Require Import List NArith Bool.
-From Dials Require Import Base.Outcome Base.Runes Text.CaseConv Text.GoCamelSpec.
+From Dials Require Import Base.Outcome Base.Runes Text.CaseConv Text.GoCamelSpec Text.CaseTitle.
 Import ListNotations.
 Open Scope N_scope.
 
@@ -9,9 +9,12 @@ Inductive c19case :=
 | GoName (toks : list (bool * str)) (impl : outcome words)
 | Raw (dec : N) (s : str) (impl : outcome words).
 
+(* the camel encoders through the faithful ASCII model of x/text's title casing
+   (Text/CaseTitle.v); on the theorems' words [a-z][a-z0-9]* it is CaseConv.v's
+   encode_upper_camel / encode_lower_camel (CaseTitleProofs.encode_camel_go_lwords) *)
 Definition encode (scheme : N) : words -> str :=
   match scheme with
-  | 0 => encode_upper_camel | 1 => encode_lower_camel | 2 => encode_lower_snake
+  | 0 => encode_upper_camel_go | 1 => encode_lower_camel_go | 2 => encode_lower_snake
   | 3 => encode_upper_snake | 4 => encode_kebab | _ => encode_cp_snake
   end.
 
